@@ -57,7 +57,9 @@ class Cfg:
         calls = " ".join(f"{-(-n // cs)}:{1 if ordered else 0}" for n, cs, ordered in self.calls)
         wc = self.work_cap_int()
         rc = self.res_cap
-        return (f"cfg {self.n_workers} {o(wc)} {o(rc)} {1 if self.factory else 0} {o(self.quota)} "
+        # a quota given as a float (the parameter's annotation) counts chunks like the least integer not below it
+        q = None if self.quota is None else math.ceil(self.quota)
+        return (f"cfg {self.n_workers} {o(wc)} {o(rc)} {1 if self.factory else 0} {o(q)} "
                 f"{1 if self.wait_ready else 0} calls: {calls} bf: {' '.join(map(str, self.begin_fault))} "
                 f"if: {' '.join(f'{a}:{b}' for a, b in self.item_fault)}").replace("  ", " ")
 
@@ -296,6 +298,13 @@ class SimEnv:
         try:
             if self.cfg.wait_ready:
                 pool.until_all_ready()
+            made = {}
+            if self.cfg.input_kind % 4 == 3:
+                # all call objects are created first and consumed afterwards, one after the other: creating a call object does
+                # nothing yet
+                for j, (n_, cs_, ordered_) in enumerate(self.cfg.calls):
+                    d_ = [core.pool_input(j, i, self.cfg.none_inputs) for i in range(n_)]
+                    made[j] = pool.imap(iter(d_), cs_) if ordered_ else pool.imap_unordered(iter(d_), cs_)
             for n, cs, ordered in self.cfg.calls:
                 base = len(self.results) * 1000
                 data = (core.pool_input(base // 1000, i, self.cfg.none_inputs) for i in range(n))  # a lazily produced input
@@ -313,7 +322,9 @@ class SimEnv:
                 if self.cfg.input_kind % 3 == 2:
                     # a call object that is never iterated: a generator that was not started has done nothing
                     self.ghosts = getattr(self, "ghosts", []) + [pool.imap(iter([7, 8, 9]), 1), pool.imap_unordered([7, 8], 2)]
-                it = pool.imap(data, cs) if ordered else pool.imap_unordered(data, cs)
+                it = made.get(len(self.results) - 1)
+                if it is None:
+                    it = pool.imap(data, cs) if ordered else pool.imap_unordered(data, cs)
                 first = True
                 for x in it:
                     res.append(x)
